@@ -83,6 +83,7 @@ type pathOutcome struct {
 	conds  []condTaken
 	calls  []callRec
 	stores []storeRec
+	seq    []int // program order of effects: +k = calls[k-1], -k = stores[k-1]
 	ret    []symVal
 	end    string // return | stop | panic | loop
 	endPos token.Pos
@@ -133,7 +134,7 @@ func (st *exState) clone() *exState {
 	for k, v := range st.onPath {
 		n.onPath[k] = v
 	}
-	n.po = pathOutcome{conds: append([]condTaken(nil), st.po.conds...), calls: append([]callRec(nil), st.po.calls...), stores: append([]storeRec(nil), st.po.stores...)}
+	n.po = pathOutcome{conds: append([]condTaken(nil), st.po.conds...), calls: append([]callRec(nil), st.po.calls...), stores: append([]storeRec(nil), st.po.stores...), seq: append([]int(nil), st.po.seq...)}
 	return n
 }
 
@@ -230,6 +231,7 @@ func (e *explorer) walk(st *exState, b, pred *ssa.BasicBlock) {
 				return
 			case *ssa.Store:
 				st.po.stores = append(st.po.stores, storeRec{addr: e.addrExpr(st, in.Addr), val: e.val(st, in.Val), pos: in.Pos()})
+				st.po.seq = append(st.po.seq, -len(st.po.stores))
 			case ssa.CallInstruction:
 				cr := callRec{callee: calleeName(e.c, in), instr: in}
 				if cr.callee == "" {
@@ -239,6 +241,7 @@ func (e *explorer) walk(st *exState, b, pred *ssa.BasicBlock) {
 					cr.args = append(cr.args, e.val(st, a))
 				}
 				st.po.calls = append(st.po.calls, cr)
+				st.po.seq = append(st.po.seq, len(st.po.calls))
 				if v, ok := in.(ssa.Value); ok {
 					st.env[v] = e.evalCall(st, v.(*ssa.Call), cr)
 				}
